@@ -268,6 +268,17 @@ def env_split_cases(tier):
             words = ["env"] + ow
             cases.append(Case(q(words), words, "env", f"env | {label}", iname, plain_inner=all(iname != n for n, _ in NESTED),
                               validate=all(iname != n for n, _ in NESTED)))
+    # round seven (`env -S '#' rm x` was approved as an empty command line): env reads the -S string by its OWN syntax - a "#"
+    # comment ends the string only, \c ends it, \_ is a blank, quotes group - and the words behind the string still run.  Real
+    # env decides what is executed; the spec makes no claim for these strings (validate=False).
+    odd_strings = ["#", "# c", " #", "ls #", "ls#", "ls #;", "", " ", "\\c", "ls \\c", "\\_", "'#'", '"#" ', "a\\#", "ls\\_-la #"]
+    for S in odd_strings:
+        for iname, iw in small[:6]:
+            if any(iname == n for n, _ in NESTED):
+                continue
+            for label, ow in (("-S odd string separate", ["-S", S]), ("-S odd string attached", ["-S" + S]), ("-S odd string =joined", ["--split-string=" + S])):
+                words = ["env"] + ow + iw
+                cases.append(Case(q(words), words, "env", f"env | {label} {S!r}", iname, validate=False, plain_inner=False))
     return cases
 
 
